@@ -79,6 +79,23 @@ def replay_reject(model, rows=1):
     return True, {"what": "inadmissible parameters / saturations accepted without an error", "inputs": m}
 
 
+def replay_reject_twophase(model):
+    """Inadmissible parameters through the two-phase table helper (water at or below connate): must be rejected too."""
+    import numpy as np
+    from bluebonnet.flow import flowproperties as fp
+    m = model_floats(model, PNAMES + ["Sw"], default={k: 0.0 for k in PNAMES + ["Sw"]})
+    params = fp.RelPermParams(**{k: m[k] for k in PNAMES})
+    sw = min(m["Sw"], m["S_wc"])
+    try:
+        with np.errstate(all="ignore"):
+            fp.relative_permeabilities_twophase(params, sw)
+    except ValueError as ex:
+        return False, {"what": f"rejected as required: {ex}", "inputs": m}
+    except Exception as ex:  # noqa: BLE001
+        return True, {"what": f"inadmissible parameters reach the computation: {ex!r} instead of a ValueError from validation", "inputs": m}
+    return True, {"what": f"relative_permeabilities_twophase accepted inadmissible parameters (Sw={sw!r}) without an error", "inputs": m}
+
+
 def replay_twophase(model, exps=(2, 2, 2)):
     import numpy as np
     from bluebonnet.flow import flowproperties as fp
@@ -226,6 +243,17 @@ def job_reject(job):
                 raised += 1
                 continue
             job.prove(f"reject/{name}/accepted[path{k}]", pr.pc, bound="one saturation record", replay=(replay_reject, {"rows": 1}))
+        if not name.startswith("saturations"):
+            # the same inadmissible parameter through the two-phase table helper (the second public entry point)
+            sw = fresh("Sw")
+            dom2 = dom + [T.b_le0(T.p_neg(P(sw))), T.b_le(P(sw), P(vs["S_wc"]))]
+            res2 = paths(job, lambda: mod.relative_permeabilities_twophase(params, sw), dom2, catch=(Exception,), max_paths=64)
+            for k, pr in enumerate(res2):
+                if isinstance(pr.exc, ValueError):
+                    continue
+                job.prove(f"reject/{name}/accepted by relative_permeabilities_twophase[path{k}]", pr.pc, bound="water at or below connate",
+                          replay=replay_reject_twophase, note=(repr(pr.exc)[:80] if pr.exc is not None else "returned a table"))
+            job.record(f"reject/{name}: two-phase helper, {sum(1 for p_ in res2 if isinstance(p_.exc, ValueError))} of {len(res2)} paths raise ValueError", "info", 0.0)
         if raised == 0:
             job.errors.append(f"reject/{name}: no path raises")
         else:
